@@ -253,6 +253,11 @@ func (e *bigEnv) bytesOf(v ssa.Value, at ssa.Instruction) *X {
 			if fa, ok := x.X.(*ssa.FieldAddr); ok {
 				return L(e.fieldPath(fa))
 			}
+			if al, ok := x.X.(*ssa.Alloc); ok {
+				if v := singleStore(al); v != nil {
+					return e.bytesOf(v, at)
+				}
+			}
 		}
 	case *ssa.MakeInterface:
 		return e.bytesOf(x.X, at)
